@@ -6,7 +6,8 @@
 //! * [`gen_program`]`(rng, &knobs)`  – a WELL-FORMED NORMALISED multi-function program: unique TIDs,
 //!   every branch target / indirect hint / return site is a block of the same function, every call
 //!   target is a function or an extern symbol, blocks end in 0, 1 or 2 jumps (two = conditional
-//!   branch followed by Branch/BranchInd/Return).  Contains conditional and indirect jumps, internal
+//!   branch followed by Branch/BranchInd/Return, or - knobs `w_cbranch_call*`, default OFF - by a
+//!   call-like instruction: a conditionally executed call).  Contains conditional and indirect jumps, internal
 //!   (also recursive and mutually recursive), extern, indirect and `CallOther` calls, calls without
 //!   return site, calls to non-returning extern symbols and to functions without `Return`, empty
 //!   functions, several call sites per callee and several returning blocks per callee.
@@ -139,6 +140,13 @@ pub struct Knobs {
     pub w_call_extern: u64,
     pub w_callind: u64,
     pub w_callother: u64,
+    /// Conditionally executed calls: a conditional branch followed by a call-like instruction in
+    /// SECOND position (e.g. ARM `blne f` = CBRANCH + CALL).  Default 0 = OFF, so the random
+    /// streams of generators that do not ask for these shapes are unchanged.
+    pub w_cbranch_call_internal: u64,
+    pub w_cbranch_call_extern: u64,
+    pub w_cbranch_callind: u64,
+    pub w_cbranch_callother: u64,
     /// probability (per cent) that a call has a return site
     pub pct_ret_site: u64,
     /// probability (per cent) that the return site is the following block (else a random block)
@@ -157,6 +165,7 @@ impl Default for Knobs {
             min_subs: 1, max_subs: 4, max_blocks: 5, pct_empty_sub: 8, max_defs: 2, externs: std_externs(),
             w_none: 2, w_return: 6, w_branch: 8, w_cbranch_branch: 10, w_cbranch_return: 2, w_cbranch_only: 1,
             w_branchind: 4, w_cbranch_branchind: 2, w_call_internal: 14, w_call_extern: 8, w_callind: 4, w_callother: 2,
+            w_cbranch_call_internal: 0, w_cbranch_call_extern: 0, w_cbranch_callind: 0, w_cbranch_callother: 0,
             pct_ret_site: 85, pct_ret_next: 70, pct_last_returns: 70, max_hints: 3, pct_forward: 40,
         }
     }
@@ -226,6 +235,8 @@ pub fn gen_program_with(rng: &mut Rng, k: &Knobs, hook: DefHook) -> Term<Program
     let weights = [
         k.w_none, k.w_return, k.w_branch, k.w_cbranch_branch, k.w_cbranch_return, k.w_cbranch_only, k.w_branchind,
         k.w_cbranch_branchind, k.w_call_internal, if externs.is_empty() { 0 } else { k.w_call_extern }, k.w_callind, k.w_callother,
+        // appended last with default weight 0: the selection among the shapes above is unchanged
+        k.w_cbranch_call_internal, if externs.is_empty() { 0 } else { k.w_cbranch_call_extern }, k.w_cbranch_callind, k.w_cbranch_callother,
     ];
     let total: u64 = weights.iter().sum();
     let mut subs = BTreeMap::new();
@@ -322,7 +333,18 @@ pub fn gen_program_with(rng: &mut Rng, k: &Knobs, hook: DefHook) -> Term<Program
                     vec![Term { tid: j1, term: Jmp::Call { target: e.tid.clone(), return_: ret_site(rng) } }]
                 }
                 10 => vec![Term { tid: j1, term: Jmp::CallInd { target: var_expr("RAX"), return_: ret_site(rng) } }],
-                _ => vec![Term { tid: j1, term: Jmp::CallOther { description: "syscall".to_string(), return_: ret_site(rng) } }],
+                11 => vec![Term { tid: j1, term: Jmp::CallOther { description: "syscall".to_string(), return_: ret_site(rng) } }],
+                // conditional branch + call-like instruction in second position
+                n => {
+                    let first = Term { tid: j1, term: Jmp::CBranch { target: target(rng), condition: cond } };
+                    let second = match n {
+                        12 => Jmp::Call { target: sub_tid(rng.below(n_subs as u64) as usize), return_: ret_site(rng) },
+                        13 => Jmp::Call { target: rng.pick(&externs).tid.clone(), return_: ret_site(rng) },
+                        14 => Jmp::CallInd { target: var_expr("RAX"), return_: ret_site(rng) },
+                        _ => Jmp::CallOther { description: "syscall".to_string(), return_: ret_site(rng) },
+                    };
+                    vec![first, Term { tid: j2, term: second }]
+                }
             };
             blocks.push(Term { tid: blk_tid(i, b), term: Blk { defs, jmps, indirect_jmp_targets: hints } });
         }
